@@ -315,6 +315,11 @@ func (x *Exec) applyContract(s *State, site ssa.Instruction, fn *ssa.Function, c
 				x.fsHavoc(s, tag)
 				continue
 			}
+			if g := strings.TrimSpace(a); strings.HasPrefix(g, "g_") {
+				s.ghost[g] = Var(g+"@"+tag, SInt)
+				s.writes["ghost:var:"+g] = writeRec{obj: x.fsMarker()}
+				continue
+			}
 			plain = append(plain, a)
 		}
 		recs := x.assignRecs(s, plain, env)
@@ -331,11 +336,44 @@ func (x *Exec) applyContract(s *State, site ssa.Instruction, fn *ssa.Function, c
 		}
 		x.havocBinds(s, fn, binds, tag)
 	}
+	// a callee may observe cancellation: the flag can only go up
+	takesCtx := false
+	if fn != nil {
+		for _, p := range fn.Params {
+			if isContextType(p.Type()) {
+				takesCtx = true
+			}
+		}
+	} else if sig != nil {
+		for i := 0; i < sig.Params().Len(); i++ {
+			if isContextType(sig.Params().At(i).Type()) {
+				takesCtx = true
+			}
+		}
+	}
+	if takesCtx && !c.Pure {
+		cur, _ := s.ghost["cancelled"].(*Term)
+		if cur == nil {
+			cur = TFalse
+		}
+		if !cur.IsTrue() {
+			s.ghost["cancelled"] = Or(cur, Var(tag+".cancelled", SBool))
+			s.writes["ghost:var:cancelled"] = writeRec{obj: x.fsMarker()}
+		}
+	}
 	ret := x.freshResult(s, site, sig.Results())
 	env2 := x.calleeEnv(s, fn, c, args, binds)
 	env2.old = old
 	for name, v := range env.lets {
 		env2.setLet(name, v)
+	}
+	if len(c.Effects) > 0 {
+		if fn != nil {
+			env2.bindResults(fn, ret)
+		} else {
+			env2.bindResultsSig(sig, ret)
+		}
+		x.applyEffects(s, env2, c)
 	}
 	if fn != nil {
 		env2.bindResults(fn, ret)
@@ -471,6 +509,11 @@ func (x *Exec) lenOf(s *State, v Val) *Term {
 		ms := x.E.objVal(s, t.Obj).(*MapStore)
 		return Ite(t.Nil, Int(0), ms.Len)
 	case *ChanV:
+		if x.isSeq(s, t) {
+			if _, cs := x.chanStore(s, t); cs != nil && cs.Len != nil {
+				return cs.Len
+			}
+		}
 		// the number of queued elements is not stable under concurrency:
 		// every observation is a fresh value within [0, cap]
 		x.E.nextObj++
